@@ -52,7 +52,7 @@ pub fn run(run: &mut Run, mode: Mode) {
     let n_extra = if thorough { 4 } else { 2 };
     for i in 0..n_extra {
         let mut r = Rng::derive(seed, 777, i);
-        pool.push(random_anim::<S4>(&mut r));
+        pool.push(random_anim_opt::<S4>(&mut r, mode == Mode::C04));
     }
     let per_cfg = 10u64.pow(depth as u32);
     let n_exh = per_cfg * pool.len() as u64;
@@ -80,7 +80,7 @@ pub fn run(run: &mut Run, mode: Mode) {
 }
 
 fn random_case<S: Shape>(r: &mut Rng, acc: &mut Acc, mode: Mode, index: u64, verbose: bool) {
-    let spec = random_anim::<S>(r);
+    let spec = random_anim_opt::<S>(r, mode == Mode::C04);
     let len = 30 + r.usize(171);
     let grid = r.chance(2, 3);
     let ops = random_history(r, len, grid);
